@@ -684,6 +684,12 @@ func (v *V) instanceFl(k, fl string, d int, only string) any {
 			// any integer is kept as a status code by the typed form
 			codes = append(codes, "99", "1000", "0", "-1", "2147483647")
 		}
+		if (only == "" || only == "/") && Pct(v.T, "minimal responses", 6) {
+			// the smallest responses object there is: one response that holds nothing but its (required) description,
+			// which may be empty
+			out[codes[Uniform(v.T, "minimalcode", 3)]] = map[string]any{"description": []any{"", "", "d"}[Uniform(v.T, "minimaldesc", 3)]}
+			return out
+		}
 		n := 1 + Uniform(v.T, "ncodes", 3)
 		start := Uniform(v.T, "codestart", len(codes))
 		for i := 0; i < n; i++ {
